@@ -81,6 +81,13 @@ class RuleTr:
             return f"{v[1]}.{e.attr}", ATTRS[e.attr]
         if isinstance(e, ast.Constant) and isinstance(e.value, str):
             return lean_str(e.value), "str"
+        if isinstance(e, ast.Constant) and type(e.value) is int and e.value >= 0:
+            return str(e.value), "nat"
+        if isinstance(e, ast.Call) and isinstance(e.func, ast.Name) and e.func.id == "len" and len(e.args) == 1 and not e.keywords:
+            t, ty = self.val(e.args[0], env)
+            if ty != "list":
+                raise TranslatorError("len() of something that is not a qubit list")
+            return f"{t}.length", "nat"
         raise TranslatorError("unsupported value expression: " + ast.dump(e)[:120])
 
     def cond(self, e, env):
@@ -103,8 +110,14 @@ class RuleTr:
             if isinstance(op, (ast.Eq, ast.NotEq)):
                 (l, lt), (r, rt) = self.val(lhs, env), self.val(rhs, env)
                 if lt != rt:
-                    raise TranslatorError("comparison of a name with a qubit list")
+                    raise TranslatorError("comparison of values of different kinds")
                 return f"({l} {'==' if isinstance(op, ast.Eq) else '!='} {r})"
+            if isinstance(op, (ast.Gt, ast.GtE, ast.Lt, ast.LtE)):
+                (l, lt), (r, rt) = self.val(lhs, env), self.val(rhs, env)
+                if lt != "nat" or rt != "nat":
+                    raise TranslatorError("order comparison of values that are not lengths / numbers")
+                sym = {ast.Gt: ">", ast.GtE: "≥", ast.Lt: "<", ast.LtE: "≤"}[type(op)]
+                return f"(decide ({l} {sym} {r}))"
             if isinstance(op, (ast.In, ast.NotIn)):
                 l, lt = self.val(lhs, env)
                 if lt != "str":
@@ -182,6 +195,48 @@ class RuleTr:
                 env[t.elts[1].id] = ("ins", y)
                 return lines + self.block(rest, env, ind)
         raise TranslatorError("unsupported statement in commutation_rules: " + ast.dump(s)[:160])
+
+
+def len_bound(tree):
+    """The guard of the same-name part of `commutation_rules` on gates given by many targets:
+    `if len(i1.targets) > k or len(i2.targets) > k: return False` directly at the top level of the function body
+    -> k (None: no such guard).  The guard itself is translated like every other statement; `k` is only used to say which
+    instructions the tree can declare self-commuting at all (`flagged`)."""
+    fn = find_method(tree, "Scheduler", "commutation_rules")
+    found = None
+    for st in fn.body:
+        if not (isinstance(st, ast.If) and isinstance(st.test, ast.BoolOp) and isinstance(st.test.op, ast.Or)
+                and len(st.test.values) == 2 and not st.orelse and len(st.body) == 1 and isinstance(st.body[0], ast.Return)
+                and isinstance(st.body[0].value, ast.Constant) and st.body[0].value.value is False):
+            continue
+        ks, vars_ = [], []
+        for v in st.test.values:
+            if (isinstance(v, ast.Compare) and len(v.ops) == 1 and isinstance(v.ops[0], ast.Gt)
+                    and isinstance(v.left, ast.Call) and isinstance(v.left.func, ast.Name) and v.left.func.id == "len"
+                    and len(v.left.args) == 1 and isinstance(v.left.args[0], ast.Attribute) and v.left.args[0].attr == "targets"
+                    and isinstance(v.left.args[0].value, ast.Name)
+                    and isinstance(v.comparators[0], ast.Constant) and type(v.comparators[0].value) is int):
+                ks.append(v.comparators[0].value)
+                vars_.append(v.left.args[0].value.id)
+        if len(ks) == 2 and ks[0] == ks[1] and vars_[0] != vars_[1]:
+            if found is not None:
+                raise TranslatorError("two length guards in commutation_rules")
+            found = ks[0]
+    return found
+
+
+def repeat_cycles_ok(tree):
+    """the `repeat_num > 0` loop of `Scheduler.schedule` measures the length of a returned cycles LIST separately
+    (`if return_cycles_list: … len(…)`); without it `max()` of a list of lists is compared with an int (TypeError)"""
+    fn = find_method(tree, "Scheduler", "schedule")
+    for node in ast.walk(fn):
+        if isinstance(node, ast.For) and isinstance(node.iter, ast.Call) and isinstance(node.iter.func, ast.Name) \
+                and node.iter.func.id == "range" and any(isinstance(a, ast.Name) and a.id == "repeat_num" for a in node.iter.args):
+            for sub in ast.walk(node):
+                if isinstance(sub, ast.If) and isinstance(sub.test, ast.Name) and sub.test.id == "return_cycles_list":
+                    return True
+            return False
+    raise TranslatorError("the repeat_num loop of Scheduler.schedule is not recognised")
 
 
 def find_method(tree, cls, name):
@@ -314,6 +369,8 @@ GENERATED by py/translate/sched.py from `qutip_qip/compiler/scheduler.py` of the
 
 * `selfCommuting`     the literal `_SELF_COMMUTING_GATES` (`none`: the module has no such set)
 * `inSet`             `name in _SELF_COMMUTING_GATES`
+* `lenBound`, `flagged`  the same-name part refuses gates with more than `k` targets (`none`: no such guard); `flagged a`:
+                      the tree can declare `a` commuting with a gate of its own name at all (the model's `Ins.sc`)
 * `commutationRules`  the body of `Scheduler.commutation_rules` (`a = instructions[ind1]`, `b = instructions[ind2]`),
                       statement by statement; code after an `if` is repeated in both branches
 * `conflictFix`       `_add_dependency_among_commuting_gates` also records an edge from every executed instruction
@@ -346,6 +403,7 @@ def generate():
         raise TranslatorError("find_topological_order does not pass the executed instructions")
     mtests = method_tests(tree)
     comb = constraint_combination(tree)
+    lb = len_bound(tree)
     out = [HEADER]
     if names is None:
         out.append("def selfCommuting : Option (List String) := none\n\n")
@@ -353,13 +411,15 @@ def generate():
         out.append("def selfCommuting : Option (List String) := some\n  [" +
                    ",\n   ".join(", ".join(lean_str(n) for n in names[i:i + 8]) for i in range(0, len(names), 8)) + "]\n\n")
     out.append("def inSet (s : String) : Bool :=\n  match selfCommuting with\n  | none => true\n  | some l => l.contains s\n\n")
+    out.append("def lenBound : Option Nat := " + ("none" if lb is None else f"some {lb}") + "\n\n")
+    out.append("def flagged (a : Ins) : Bool :=\n  inSet a.name && (match lenBound with | none => true | some k => decide (a.targets.length ≤ k))\n\n")
     out.append("def commutationRules (a b : Ins) : Bool :=\n" + "\n".join(body) + "\n\n")
     out.append(f"def conflictFix : Bool := {'true' if fx else 'false'}\n\n")
     out.append("def methodTests : List String := [" + ", ".join(lean_str(t) for t in mtests) + "]\n\n")
     out.append("def alapAt (k : Nat) (m : Option String) : Bool := m == some (methodTests.getD k \"\")\n\n")
     out.append(f"def applyConstraint (vs : List Bool) : Bool := vs.{comb} id\n\n")
     out.append("end QipVerif.Gen.SchedRule\n")
-    return "".join(out), {"names": names, "conflict_fix": fx}
+    return "".join(out), {"names": names, "conflict_fix": fx, "len_bound": lb, "repeat_cycles_ok": repeat_cycles_ok(tree)}
 
 
 _INFO = {}
@@ -394,4 +454,9 @@ def info():
             raise TranslatorError(f"cannot parse {k[0]}: {e}")
         _INFO.clear()
         _INFO[k] = {"names": read_set(tree), "conflict_fix": conflict_fix(tree, strict=False)}
+        for key, f in (("len_bound", len_bound), ("repeat_cycles_ok", repeat_cycles_ok)):
+            try:
+                _INFO[k][key] = f(tree)
+            except TranslatorError:
+                _INFO[k][key] = None
     return dict(_INFO[k])
